@@ -80,6 +80,7 @@ type callObs struct {
 	AllowIdx []int // per sender: last script index that may be applied
 	AllowWm  int   // largest watermark the operator may act on
 	Open     []int // barrier ids delivered by some runner and not acknowledged
+	Doomed   bool  // a handler call or a checkpoint report had failed before: the operator will never report again
 }
 
 // obs collects everything observed, in real-time order.
@@ -90,6 +91,7 @@ type obs struct {
 	acks    []uint64
 	calls   []callObs
 	earlyW  map[int]bool // barrier ids that were open when the call of a watermark delivered after them returned
+	doomed  bool         // a handler call or a checkpoint report failed (fault arm)
 	trace   []any
 	rng     *rand.Rand // jitter (trace mode), nil otherwise
 	jitter  int
@@ -208,9 +210,60 @@ type run struct {
 	held        map[int]func()
 	seenCalls   int
 	holdHandler atomic.Bool // the next handler call parks at ptCall
+
+	// fault arm
+	sctx      []context.Context // per sender: the context of its request (all its HandleEvent calls)
+	scancel   []context.CancelFunc
+	failNext  atomic.Bool // the next handler invocation returns an error
+	honourCtx bool        // the handler fails when the context of its call is done (as the connect clients do)
+	stopped   bool        // Start returned: the operator shut itself down
+	faults    bool        // behaviour of the fault arm (epilogue after a divergence)
+	k         int         // barriers per sender (epilogue)
+	plan      *faultPlan  // trace mode
+	planMu    sync.Mutex
+	seq       int         // run number (sender ids)
+	ended     atomic.Bool // the run is over: its senders start nothing more
 }
 
-func srName(sr int) string { return fmt.Sprintf("sr%d", sr) }
+// faultPlan: faults of one free-running (trace mode) run, chosen by the seeded
+// generator; each is bound to a point of the run rather than to wall time.
+type faultPlan struct {
+	cancelSr      int // sender whose request context is cancelled (0: none)
+	cancelOnPark  int // ... right after its n-th park on alignment (0: not by this rule)
+	cancelAtStart int // ... just before it starts its item #n (0: not by this rule)
+	cancelAtLen   int // ... when the recorded trace reaches this length (0: not by this rule)
+	failCall      int // the n-th handler invocation fails (0: none)
+	failTimerCall bool // the first handler invocation made by a batch time-out flush fails
+	parks         int
+	hcalls        int
+	done          bool
+}
+
+type senderKey struct{}
+
+var errInjected = fmt.Errorf("handler unavailable (injected)")
+
+func (r *run) cancelSender(sr int) {
+	r.o.mu.Lock()
+	r.o.trace = append(r.o.trace, map[string]any{"op": "Cancel", "sr": sr})
+	r.o.mu.Unlock()
+	r.scancel[sr-1]()
+}
+
+// noteStopped records that the operator shut itself down if it did (waiting up to d).
+func (r *run) noteStopped(d time.Duration) bool {
+	if !r.stopped && r.op.WaitStopped(d) {
+		r.stopped = true
+	}
+	return r.stopped
+}
+
+// sender ids are unique per run: a caller of an earlier run that is still
+// alive (the fault arm leaves callers parked for ever) can then never be
+// mistaken for a sender of the current run by the process-wide hook
+var runSeq int
+
+func (r *run) srName(sr int) string { return fmt.Sprintf("r%d-sr%d", r.seq, sr) }
 
 func newRun(ns, maxSize int, useTimer, gated bool, rng *rand.Rand, jitter int) (*run, error) {
 	r := &run{ns: ns, maxSize: maxSize, useTimer: useTimer, passArr: map[int]*gate.Arrival{}, held: map[int]func(){}}
@@ -226,18 +279,40 @@ func newRun(ns, maxSize int, useTimer, gated bool, rng *rand.Rand, jitter int) (
 	}
 	r.dir = dir
 	r.ctx, r.cancel = context.WithCancel(context.Background())
+	for i := 0; i < ns; i++ {
+		c, cf := context.WithCancel(context.WithValue(r.ctx, senderKey{}, i+1))
+		r.sctx, r.scancel = append(r.sctx, c), append(r.scancel, cf)
+	}
+	runSeq++
+	r.seq = runSeq
 	names := map[string]int{}
 	ids := make([]string, ns)
 	for i := range ids {
-		ids[i] = srName(i + 1)
+		ids[i] = r.srName(i + 1)
 		names[ids[i]] = i + 1
 	}
 	verifhook.Install(func(point string, args ...any) {
+		if len(args) == 0 || r.ended.Load() {
+			return
+		}
+		if name, ok := args[0].(string); !ok || names[name] == 0 {
+			return // not a sender of this run
+		}
 		switch point {
 		case ptPark:
 			r.o.mu.Lock()
 			r.o.trace = append(r.o.trace, map[string]any{"op": "Park", "sr": names[args[0].(string)], "n": args[1]})
 			r.o.mu.Unlock()
+			if p := r.plan; p != nil && p.cancelSr == names[args[0].(string)] && p.cancelOnPark > 0 {
+				r.planMu.Lock()
+				p.parks++
+				hit := p.parks == p.cancelOnPark && !p.done
+				p.done = p.done || hit
+				r.planMu.Unlock()
+				if hit {
+					go func(sr int) { r.o.sleep(); r.cancelSender(sr) }(p.cancelSr)
+				}
+			}
 		case ptPass:
 			sr := names[args[0].(string)]
 			r.o.mu.Lock()
@@ -249,28 +324,69 @@ func newRun(ns, maxSize int, useTimer, gated bool, rng *rand.Rand, jitter int) (
 		r.o.sleep()
 		r.s.At(point, args...)
 	}, nil)
-	h := &opkit.RefHandler{OnCall: func(c *opkit.Call) {
+	h := &opkit.RefHandler{Decide: func(ctx context.Context, c *opkit.Call) error {
+		if r.ended.Load() {
+			return errRunOver
+		}
+		if p := r.plan; p != nil {
+			r.planMu.Lock()
+			p.hcalls++
+			hit := p.hcalls == p.failCall
+			if p.failTimerCall && ctx.Value(senderKey{}) == nil {
+				hit, p.failTimerCall = true, false
+			}
+			r.planMu.Unlock()
+			if hit {
+				return errInjected
+			}
+		}
+		if r.failNext.CompareAndSwap(true, false) {
+			return errInjected
+		}
+		if r.honourCtx && ctx.Err() != nil {
+			return ctx.Err()
+		}
+		return nil
+	}, OnCall: func(c *opkit.Call) {
 		r.o.mu.Lock()
 		idx, wm := r.o.allowLocked()
-		r.o.calls = append(r.o.calls, callObs{Call: c, AcksAt: len(r.o.acks), AllowIdx: idx, AllowWm: wm, Open: r.o.openLocked(nil)})
+		r.o.calls = append(r.o.calls, callObs{Call: c, AcksAt: len(r.o.acks), AllowIdx: idx, AllowWm: wm, Open: r.o.openLocked(nil), Doomed: r.o.doomed})
 		items := c.Items
 		if items == nil {
 			items = []opkit.Unit{}
 		}
-		r.o.trace = append(r.o.trace, map[string]any{"op": "Call", "items": items, "w": c.W})
+		r.o.trace = append(r.o.trace, map[string]any{"op": "Call", "items": items, "w": c.W, "fail": c.Fail})
+		if c.Fail {
+			r.o.doomed = true
+		}
 		r.o.mu.Unlock()
 		r.o.sleep()
 		if r.holdHandler.CompareAndSwap(true, false) {
 			r.s.At(ptCall)
 		}
 	}}
-	j := &opkit.JobRec{OnAck: func(ck *snapshotpb.OperatorCheckpoint) {
+	// the job client honours the context of the report: a report made with a
+	// cancelled context never reaches the job
+	j := &opkit.JobRec{Check: func(ctx context.Context, ck *snapshotpb.OperatorCheckpoint) error {
+		r.o.sleep()
+		r.s.At(ptAck, ck.CheckpointId)
+		if r.ended.Load() {
+			return errRunOver
+		}
+		if err := ctx.Err(); err != nil {
+			r.o.mu.Lock()
+			r.o.doomed = true
+			r.o.trace = append(r.o.trace, map[string]any{"op": "AckFail", "n": ck.CheckpointId})
+			r.o.mu.Unlock()
+			return err
+		}
+		return nil
+	}, OnAck: func(ck *snapshotpb.OperatorCheckpoint) {
 		r.o.mu.Lock()
 		r.o.acks = append(r.o.acks, ck.CheckpointId)
 		r.o.trace = append(r.o.trace, map[string]any{"op": "Ack", "n": ck.CheckpointId})
 		r.o.mu.Unlock()
 		r.o.sleep()
-		r.s.At(ptAck, ck.CheckpointId)
 	}}
 	r.op, err = opkit.StartOp(opkit.Params{ID: "op1", Dir: dir, SrIDs: ids, MaxSize: maxSize, UseTimer: useTimer, Handler: h, Job: j})
 	if err != nil {
@@ -298,20 +414,35 @@ func toEvent(sr, idx int, it item) *workerpb.Event {
 func (r *run) senderLoop(sd *sender) {
 	dead := false
 	for it := range sd.cmd {
+		if r.ended.Load() {
+			return
+		}
 		if dead { // a runner whose call failed sends nothing more
 			sd.ret <- errDead
 			continue
 		}
 		r.o.sleep()
+		if p := r.plan; p != nil && p.cancelSr == sd.id && p.cancelAtStart > 0 {
+			r.o.mu.Lock()
+			next := len(r.o.started[sd.id-1]) + 1
+			r.o.mu.Unlock()
+			r.planMu.Lock()
+			hit := next == p.cancelAtStart && !p.done
+			p.done = p.done || hit
+			r.planMu.Unlock()
+			if hit {
+				r.cancelSender(sd.id)
+			}
+		}
 		r.o.mu.Lock()
 		r.o.started[sd.id-1] = append(r.o.started[sd.id-1], it)
 		idx := len(r.o.started[sd.id-1])
 		r.o.trace = append(r.o.trace, map[string]any{"op": "Start", "sr": sd.id, "k": it.K, "v": it.V, "idx": idx})
 		r.o.mu.Unlock()
-		err := r.op.Send(r.ctx, sd.name, toEvent(sd.id, idx, it))
+		err := r.op.Send(r.sctx[sd.id-1], sd.name, toEvent(sd.id, idx, it))
 		r.o.mu.Lock()
 		r.o.trace = append(r.o.trace, map[string]any{"op": "Ret", "sr": sd.id, "err": err != nil})
-		if it.K == "w" && err == nil {
+		if it.K == "w" && err == nil && !r.o.doomed {
 			// the operator processed this watermark: was a barrier its runner delivered before it still open?
 			for _, n := range r.o.openLocked(r.o.started[sd.id-1][:idx]) {
 				r.o.earlyW[n] = true
@@ -342,6 +473,7 @@ func (r *run) awaitRet(sr int, d time.Duration) (error, bool) {
 }
 
 func (r *run) close() {
+	r.ended.Store(true)
 	verifhook.Install(nil, nil)
 	r.s.FreeRun()
 	r.op.Stop()
@@ -366,7 +498,7 @@ func driftf(f string, a ...any) error {
 }
 
 func (r *run) awaitSr(sr int, points ...string) (a *gate.Arrival, err error) {
-	name := srName(sr)
+	name := r.srName(sr)
 	defer func() {
 		if err != nil {
 			expired += wait
@@ -413,11 +545,14 @@ func (r *run) compareCalls(st mbt.Step) error {
 		if gu == nil {
 			gu = []opkit.Unit{}
 		}
-		if !reflect.DeepEqual(gu, wu) || c.Call.W != w.Int("w") {
-			return driftf("handler call %v w=%d, model predicted %v w=%d", gu, c.Call.W, wu, w.Int("w"))
+		if !reflect.DeepEqual(gu, wu) || c.Call.W != w.Int("w") || c.Call.Fail != w.Bool("fail") {
+			return driftf("handler call %v w=%d fail=%v, model predicted %v w=%d fail=%v", gu, c.Call.W, c.Call.Fail, wu, w.Int("w"), w.Bool("fail"))
 		}
 		if al != nil {
 			a := mbt.Step(al)
+			if c.Doomed != a.Bool("doomed") {
+				return fmt.Errorf("harness and model disagree on whether a failure was handed out before this handler call: %v vs %v", c.Doomed, a.Bool("doomed"))
+			}
 			if !reflect.DeepEqual(c.AllowIdx, a.Ints("idx")) || c.AllowWm != a.Int("wm") {
 				return fmt.Errorf("harness and model disagree on what the property allows: %v/%d vs %v/%d", c.AllowIdx, c.AllowWm, a.Ints("idx"), a.Int("wm"))
 			}
@@ -471,11 +606,31 @@ func (r *run) step(st mbt.Step) error {
 			return driftf("AlignCheck(%d): parked on checkpoint %v, model says %d", sr, a.Args[1], st.Int("wf"))
 		}
 	case "Unpark":
-		a, err := r.awaitSr(sr, ptPass)
-		if err != nil {
-			return driftf("Unpark(%d): parked sender was not woken: %v", sr, err)
+		if st.Bool("dev") {
+			// deviation witness: the model (Dev_CtxAwareWait) lets a cancelled
+			// caller through although its checkpoint still lacks barriers. A
+			// quiet period is enough to conclude that the real caller stays parked.
+			name := r.srName(sr)
+			a, err := r.s.Await(func(a *gate.Arrival) bool { return a.Point == ptPass && len(a.Args) > 0 && a.Args[0] == any(name) }, 120*time.Millisecond)
+			if err != nil {
+				return driftf("Unpark(%d): the cancelled caller stays parked (the deviation lets it through)", sr)
+			}
+			r.passArr[sr] = a
+			return nil
+		}
+		a, rerr, returned := r.awaitPassOrRet(sr)
+		if returned {
+			return driftf("Unpark(%d): the parked call returned (%v) instead of passing alignment", sr, rerr)
+		}
+		if a == nil {
+			expired += wait
+			return driftf("Unpark(%d): parked sender was not woken", sr)
 		}
 		r.passArr[sr] = a
+	case "CancelCaller":
+		r.cancelSender(sr)
+	case "ArmHandlerFail":
+		r.failNext.Store(true)
 	case "Enqueue":
 		a := r.passArr[sr]
 		if a == nil {
@@ -484,11 +639,18 @@ func (r *run) step(st mbt.Step) error {
 		delete(r.passArr, sr)
 		a.Release()
 	case "LoopEvent", "LoopWatermark", "LoopBarrier":
-		if st.Str("a") == "LoopBarrier" && st.Bool("last") {
-			a, err := r.s.Await(gate.Point(ptAck), wait)
-			if err != nil {
+		wantErr := st.Bool("err") || st.Bool("mismatch")
+		if st.Str("a") == "LoopBarrier" && st.Bool("last") && !wantErr {
+			a, rerr, returned := r.awaitAckOrRet(sr)
+			if returned {
+				if cerr := r.compareCalls(st); cerr != nil {
+					return cerr
+				}
+				return driftf("LoopBarrier(%d, last): the barrier call returned (%v) without reporting checkpoint %d", sr, rerr, st.Int("n"))
+			}
+			if a == nil {
 				expired += wait
-				return driftf("LoopBarrier(%d, last): no OperatorCheckpointComplete: %v", sr, err)
+				return driftf("LoopBarrier(%d, last): no OperatorCheckpointComplete", sr)
 			}
 			r.ackArr = a
 			if fmt.Sprint(a.Args[0]) != fmt.Sprint(st.Int("n")) {
@@ -499,11 +661,17 @@ func (r *run) step(st mbt.Step) error {
 			if !ok {
 				return driftf("%s(%d): HandleEvent did not return", st.Str("a"), sr)
 			}
-			if err != nil && !st.Bool("mismatch") {
+			if err != nil && !wantErr {
 				return driftf("%s(%d): HandleEvent returned %v", st.Str("a"), sr, err)
 			}
 			if err == nil && st.Bool("mismatch") {
 				return driftf("LoopBarrier(%d): the operator accepted barrier %d although another checkpoint is open (model: checkpoint ID mismatch)", sr, st.Int("n"))
+			}
+			if err == nil && wantErr {
+				if cerr := r.compareCalls(st); cerr != nil {
+					return cerr
+				}
+				return driftf("%s(%d): HandleEvent returned nil although the handler call of its flush failed", st.Str("a"), sr)
 			}
 		}
 		return r.compareCalls(st)
@@ -513,7 +681,14 @@ func (r *run) step(st mbt.Step) error {
 		}
 		r.ackArr.Release()
 		r.ackArr = nil
-		if err, ok := r.awaitRet(sr, wait); !ok || err != nil {
+		err, ok := r.awaitRet(sr, wait)
+		if !ok {
+			return driftf("CompleteCheckpoint: barrier call of sender %d did not return", sr)
+		}
+		if st.Bool("err") && err == nil {
+			return driftf("CompleteCheckpoint: the report of checkpoint %d went through although the context of the barrier call is cancelled", st.Int("n"))
+		}
+		if !st.Bool("err") && err != nil {
 			return driftf("CompleteCheckpoint: barrier call of sender %d did not return cleanly (%v)", sr, err)
 		}
 	case "TimerFire":
@@ -544,11 +719,64 @@ func (r *run) step(st mbt.Step) error {
 			// Flush with a stale token) a moment before we look at the log
 			time.Sleep(200 * time.Microsecond)
 		}
-		return r.compareCalls(st)
+		if err := r.compareCalls(st); err != nil {
+			return err
+		}
+		failed := false
+		for _, c := range st.List("calls") {
+			failed = failed || mbt.Step(c.(map[string]any)).Bool("fail")
+		}
+		if st.Bool("stop") {
+			if !r.noteStopped(600 * time.Millisecond) {
+				return driftf("LoopBatchTimeout: the operator did not stop after the handler call of the time-out flush failed")
+			}
+		} else if failed && r.noteStopped(60*time.Millisecond) {
+			// deviation witness (Dev_SwallowFlushError): the real operator is fail-stop here
+			return driftf("LoopBatchTimeout: the operator stopped after the failed time-out flush (the deviation carries on)")
+		}
+		return nil
 	default:
 		return fmt.Errorf("unknown action %q", st.Str("a"))
 	}
 	return nil
+}
+
+// awaitAckOrRet waits until the event loop arrives at the job gate (last
+// barrier: OperatorCheckpointComplete) or the barrier call of sr returns.
+func (r *run) awaitAckOrRet(sr int) (a *gate.Arrival, rerr error, returned bool) {
+	sd := r.snd[sr-1]
+	dl := time.Now().Add(wait)
+	for time.Now().Before(dl) {
+		if a, err := r.s.Await(gate.Point(ptAck), 2*time.Millisecond); err == nil {
+			return a, nil, false
+		}
+		select {
+		case e := <-sd.ret:
+			sd.got++
+			return nil, e, true
+		default:
+		}
+	}
+	return nil, nil, false
+}
+
+// awaitPassOrRet waits until sender sr arrives at the pass gate or its call returns.
+func (r *run) awaitPassOrRet(sr int) (a *gate.Arrival, rerr error, returned bool) {
+	sd := r.snd[sr-1]
+	name := r.srName(sr)
+	dl := time.Now().Add(wait)
+	for time.Now().Before(dl) {
+		if a, err := r.s.Await(func(a *gate.Arrival) bool { return a.Point == ptPass && len(a.Args) > 0 && a.Args[0] == any(name) }, 2*time.Millisecond); err == nil {
+			return a, nil, false
+		}
+		select {
+		case e := <-sd.ret:
+			sd.got++
+			return nil, e, true
+		default:
+		}
+	}
+	return nil, nil, false
 }
 
 // holdExperiment (adversarial arm): the next model steps are Enqueue(sr) of the
@@ -576,7 +804,7 @@ func (r *run) holdExperiment(sr int, parked []int, res *mbt.Result) error {
 	}
 	pushed := 0
 	for _, p := range parked {
-		name := srName(p)
+		name := r.srName(p)
 		pa, err := r.s.Await(func(a *gate.Arrival) bool { return a.Point == ptPass && len(a.Args) > 0 && a.Args[0] == any(name) }, 300*time.Millisecond)
 		if err != nil {
 			continue // not woken yet: nothing to push
@@ -605,6 +833,12 @@ func (r *run) holdExperiment(sr int, parked []int, res *mbt.Result) error {
 // behaviour (rest, per sender in order), and waits for all calls to return.
 func (r *run) complete(rest map[int][]item) bool {
 	r.s.FreeRun()
+	if r.ackArr != nil {
+		r.ackArr = nil
+	}
+	if r.noteStopped(0) {
+		return true // the operator shut itself down: calls in flight never return, nothing more can be reported
+	}
 	for sr, its := range rest {
 		for _, it := range its {
 			r.send(sr, it)
@@ -613,6 +847,18 @@ func (r *run) complete(rest map[int][]item) bool {
 	for tok, d := range r.held {
 		delete(r.held, tok)
 		go d()
+	}
+	failed := make([]bool, r.ns)
+	if r.faults {
+		// callers legitimately stay parked for ever behind a runner that stopped,
+		// or hang on an operator that shut itself down: wait until everything
+		// returned or nothing has moved for a quiet period
+		defer func(e time.Duration) { expired = e }(expired)
+		all := r.settle(failed)
+		if !r.noteStopped(0) {
+			r.epilogue(failed)
+		}
+		return all
 	}
 	dl := time.Now().Add(wait)
 	for _, sd := range r.snd {
@@ -623,6 +869,89 @@ func (r *run) complete(rest map[int][]item) bool {
 		}
 	}
 	return true
+}
+
+const quiet = 60 * time.Millisecond
+
+// settle (fault arm) consumes the returns of the calls in flight until all of
+// them returned, the operator shut itself down, or nothing was observed for a
+// quiet period (only ever used to conclude that callers are parked).
+func (r *run) settle(failed []bool) bool {
+	dl := time.Now().Add(wait)
+	last, lastChange := -1, time.Now()
+	for {
+		pendingCalls := false
+		for _, sd := range r.snd {
+			for sd.got < sd.sent {
+				select {
+				case err := <-sd.ret:
+					sd.got++
+					failed[sd.id-1] = failed[sd.id-1] || err != nil
+					lastChange = time.Now()
+					continue
+				default:
+				}
+				pendingCalls = true
+				break
+			}
+		}
+		if !pendingCalls {
+			return true
+		}
+		r.o.mu.Lock()
+		n := len(r.o.trace)
+		r.o.mu.Unlock()
+		if n != last {
+			last, lastChange = n, time.Now()
+		}
+		if time.Since(lastChange) > quiet || time.Now().After(dl) || r.noteStopped(0) {
+			return false
+		}
+		time.Sleep(500 * time.Microsecond)
+	}
+}
+
+// freeze (fault arm: callers may still be in flight when the run is judged)
+// makes the harness-owned adapters refuse from now on: no handler call is
+// applied and no report is accepted any more, the senders start nothing new,
+// so what the judge snapshots afterwards is final. The operator itself is not
+// touched (stopping it would close its database under a closure in flight).
+func (r *run) freeze() {
+	if r.faults {
+		r.ended.Store(true)
+	}
+}
+
+var errRunOver = fmt.Errorf("harness: the run is over")
+
+// epilogue (fault arm, after the code left the model's schedule): every runner
+// that is still alive - all its calls returned nil - goes on as a real runner
+// would and delivers its remaining barriers, so that a checkpoint the operator
+// is still willing to report is reported (and then judged by its content). A
+// call that does not return within a quiet period is taken to be parked.
+func (r *run) epilogue(failed []bool) {
+	for round := 0; round < r.k; round++ {
+		for _, sd := range r.snd {
+			if failed[sd.id-1] || sd.got < sd.sent {
+				continue
+			}
+			r.o.mu.Lock()
+			last := 0
+			for _, it := range r.o.started[sd.id-1] {
+				if it.K == "b" {
+					last = it.V
+				}
+			}
+			r.o.mu.Unlock()
+			if last >= r.k {
+				continue
+			}
+			r.send(sd.id, item{K: "b", V: last + 1})
+			if err, ok := r.awaitRet(sd.id, 150*time.Millisecond); ok && err != nil {
+				failed[sd.id-1] = true
+			}
+		}
+	}
 }
 
 func trunc(s string) string {
@@ -663,6 +992,11 @@ func (r *run) judge(bi int, res *mbt.Result, predictedCut map[int]mbt.Step) (vio
 	}
 	// V1
 	for ci, c := range calls {
+		if c.Call.Fail || c.Doomed {
+			// nothing of a failed call is applied; an operator that already handed
+			// out a failure never reports a checkpoint again (if it does, V2 judges it)
+			continue
+		}
 		for _, u := range c.Call.Items {
 			if u.Sr < 1 || u.Sr > r.ns || u.Idx < 1 || u.Idx > len(scripts[u.Sr-1]) || scripts[u.Sr-1][u.Idx-1].K != "e" {
 				res.Errors = append(res.Errors, fmt.Sprintf("b%d: handler received %+v which no sender sent", bi, u))
@@ -819,6 +1153,25 @@ func (r *run) judge(bi int, res *mbt.Result, predictedCut map[int]mbt.Step) (vio
 	return
 }
 
+// criticalStep: is st the step at which the design without deviation dev leaves a witness schedule of dev?
+func criticalStep(dev string, st mbt.Step) bool {
+	failed := false
+	for _, c := range st.List("calls") {
+		failed = failed || mbt.Step(c.(map[string]any)).Bool("fail")
+	}
+	switch st.Str("a") {
+	case "Unpark":
+		return st.Bool("dev")
+	case "LoopBatchTimeout", "LoopEvent", "LoopWatermark":
+		return failed
+	case "LoopBarrier":
+		return st.Bool("last") && failed
+	case "CompleteCheckpoint":
+		return true
+	}
+	return false
+}
+
 func safeProbe(dir, id string, ck *snapshotpb.OperatorCheckpoint, cand [][2]int) (c opkit.Content, err error) {
 	defer func() {
 		if p := recover(); p != nil {
@@ -836,6 +1189,10 @@ func replay(bi int, beh []mbt.Step, in *mbt.Input, res *mbt.Result) {
 		return
 	}
 	defer r.close()
+	r.honourCtx = in.CfgBool("HonourCtx", false)
+	r.k = in.CfgInt("K", 2)
+	witness := in.CfgStr("Witness", "")
+	r.faults = witness != "" || in.CfgInt("MaxCancel", 0) > 0 || in.CfgInt("MaxHFail", 0) > 0
 	predicted := map[int]mbt.Step{}
 	var derr error
 	at := 0
@@ -891,12 +1248,34 @@ func replay(bi int, beh []mbt.Step, in *mbt.Input, res *mbt.Result) {
 	}
 	verifhook.Install(nil, nil)
 	r.s.FreeRun()
+	r.freeze()
 	violated, note := r.judge(bi, res, predicted)
+	if witness != "" {
+		res.Count("witness_behaviours", 1)
+	}
 	switch {
 	case violated:
 		if derr != nil {
 			res.Violations[len(res.Violations)-1].What += " [after schedule divergence: " + trunc(derr.Error()) + "]"
 		}
+		if witness != "" {
+			res.Violations[len(res.Violations)-1].What += " [witness schedule of " + witness + "]"
+		}
+	case witness != "" && derr != nil:
+		// a schedule only the deviating design follows to its end: the real code
+		// is expected to leave it at the deviating step
+		res.Count("witness_not_followed", 1)
+		if criticalStep(witness, beh[at]) {
+			res.Count("witness_left_at_critical_step", 1)
+		} else if len(res.DriftNotes) < 20 {
+			res.DriftNotes = append(res.DriftNotes, fmt.Sprintf("b%d s%d (witness %s): %v", bi, at, witness, derr))
+		}
+		res.Executed++
+	case witness != "":
+		// every step and every handler call matched a schedule that ends in a
+		// state the property forbids, yet the judge saw nothing: model and
+		// harness disagree
+		res.Errors = append(res.Errors, fmt.Sprintf("b%d: witness schedule of %s was followed to its end by the real operator but no violation was observed", bi, witness))
 	case derr != nil:
 		if !completed {
 			res.Driftf("b%d s%d: %v; afterwards some HandleEvent calls never returned", bi, at, derr)
@@ -958,6 +1337,31 @@ func traceRun(ri int, in *mbt.Input, rng *rand.Rand, res *mbt.Result) []any {
 	for s := range scripts {
 		scripts[s] = genScript(rng, k, in.CfgInt("MaxScript", 6), in.CfgInt("MaxW", 3))
 	}
+	r.k = k
+	if in.CfgBool("Faults", false) {
+		r.faults = true
+		r.honourCtx = rng.Intn(3) > 0
+		p := &faultPlan{}
+		if rng.Intn(4) > 0 { // a request context is cancelled
+			p.cancelSr = 1 + rng.Intn(ns)
+			switch rng.Intn(3) {
+			case 0:
+				p.cancelOnPark = 1 + rng.Intn(2)
+			case 1:
+				p.cancelAtStart = 1 + rng.Intn(len(scripts[p.cancelSr-1]))
+			default:
+				p.cancelAtLen = 1 + rng.Intn(12*ns)
+			}
+		}
+		switch rng.Intn(4) { // a handler invocation fails
+		case 0:
+			p.failCall = 1 + rng.Intn(5)
+		case 1:
+			p.failTimerCall = true
+		}
+		r.plan = p
+		res.Count("fault_runs", 1)
+	}
 	stop := make(chan struct{})
 	var wg sync.WaitGroup
 	if in.CfgBool("UseTimer", true) {
@@ -991,16 +1395,47 @@ func traceRun(ri int, in *mbt.Input, rng *rand.Rand, res *mbt.Result) []any {
 			r.send(s+1, it)
 		}
 	}
+	if p := r.plan; p != nil && p.cancelAtLen > 0 {
+		wg.Add(1)
+		go func() {
+			defer wg.Done()
+			for {
+				select {
+				case <-stop:
+					return
+				default:
+				}
+				r.o.mu.Lock()
+				n := len(r.o.trace)
+				r.o.mu.Unlock()
+				if n >= p.cancelAtLen {
+					r.cancelSender(p.cancelSr)
+					return
+				}
+				time.Sleep(20 * time.Microsecond)
+			}
+		}()
+	}
 	ok := r.complete(nil)
 	close(stop)
 	wg.Wait()
-	if !ok {
+	if !ok && !r.faults {
 		res.Errors = append(res.Errors, fmt.Sprintf("trace run %d: HandleEvent calls did not return (scripts %v)", ri, scripts))
 		return nil
 	}
+	if !ok {
+		res.Count("fault_runs_with_callers_left_parked_or_hanging", 1)
+	}
+	if r.noteStopped(0) {
+		res.Count("fault_runs_operator_stopped", 1)
+	}
+	r.freeze()
 	verifhook.Install(nil, nil)
 	r.o.mu.Lock()
 	events := append([]any(nil), r.o.trace...)
+	if r.o.doomed {
+		res.Count("fault_runs_doomed", 1)
+	}
 	r.o.mu.Unlock()
 	nv := len(res.Violations)
 	r.judge(ri, res, nil)
@@ -1016,7 +1451,16 @@ func traceRun(ri int, in *mbt.Input, rng *rand.Rand, res *mbt.Result) []any {
 			}
 		}
 	}
+	inSnapshot := map[uint64]bool{}
+	for _, e := range events {
+		if m, ok := e.(map[string]any); ok && m["op"] == "Ack" {
+			inSnapshot[m["n"].(uint64)] = true
+		}
+	}
 	for _, ck := range r.op.J.Acks() {
+		if !inSnapshot[ck.CheckpointId] {
+			continue // reported after the recording was closed
+		}
 		c, err := safeProbe(r.dir, fmt.Sprintf("tprobe%d", ck.CheckpointId), ck, cand)
 		if err != nil {
 			res.Errors = append(res.Errors, fmt.Sprintf("trace run %d: cannot read back checkpoint %d: %v", ri, ck.CheckpointId, err))
